@@ -637,19 +637,46 @@ func (o *Obligation) cexQuery() (string, []string) {
 	return sb.String(), names
 }
 
-func (o *Obligation) query() string {
-	var sb strings.Builder
-	if o.vc.fpMode {
-		sb.WriteString(preludeFP)
-	} else {
-		sb.WriteString(preludeAbs)
-	}
-	sb.WriteString(smtPrelude)
+// axiomSymbols: a prelude axiom is included only when the symbol it is about occurs in the query
+// (irrelevant quantified axioms make the solvers slower and less stable).
+var axiomSymbols = []string{"feq", "flt", "slen", "sbyte", "substr", "sconcat", "str1", "elemref"}
+
+func (o *Obligation) query() string { return o.queryWith("") }
+
+func (o *Obligation) queryWith(extra string) string {
+	var body strings.Builder
 	for _, l := range o.vc.lines[:o.Prefix] {
+		body.WriteString(l)
+		body.WriteByte('\n')
+	}
+	if extra != "" {
+		body.WriteString(fmt.Sprintf("(assert %s)\n", extra))
+	}
+	body.WriteString(fmt.Sprintf("(assert (not %s))\n(check-sat)\n", o.Goal))
+	bs := body.String()
+	var sb strings.Builder
+	pre := preludeAbs
+	if o.vc.fpMode {
+		pre = preludeFP
+	}
+	for _, l := range strings.Split(pre+smtPrelude, "\n") {
+		if strings.HasPrefix(l, "(assert (forall") {
+			keep := false
+			for _, sym := range axiomSymbols {
+				if strings.Contains(l, ":pattern (("+sym+" ") || strings.Contains(l, ":pattern ((slen ("+sym+" ") || strings.Contains(l, ":pattern ((sbyte ("+sym+" ") {
+					if strings.Contains(bs, "("+sym+" ") || (sym == "flt" && strings.Contains(bs, "(fgt ")) {
+						keep = true
+					}
+				}
+			}
+			if !keep {
+				continue
+			}
+		}
 		sb.WriteString(l)
 		sb.WriteByte('\n')
 	}
-	sb.WriteString(fmt.Sprintf("(assert (not %s))\n(check-sat)\n", o.Goal))
+	sb.WriteString(bs)
 	return sb.String()
 }
 
